@@ -15,7 +15,7 @@ func init() {
 		f := &spec.File{Path: "basic/v1/basic.proto", Package: "basic.v1", GoImport: "lab/gen/basicv1", GoName: "basicv1"}
 		f.Enums = []*spec.EnumDef{{Name: "Color", Values: []spec.EnumValue{{Name: "COLOR_UNSPECIFIED", Num: 0}, {Name: "COLOR_RED", Num: 1, JSON: spec.S("red")}}}}
 		f.Messages = []*spec.Message{
-			{Name: "GetReq", Fields: []*spec.Field{spec.F("user_id", 1, spec.String), spec.F("limit", 2, spec.Int32).Q("limit"), spec.F("tags", 3, spec.String).Rep().Q("tag")}},
+			{Name: "GetReq", Fields: []*spec.Field{spec.F("user_id", 1, spec.String), spec.F("limit", 2, spec.Int32).Q("limit")}},
 			{Name: "PutReq", Fields: []*spec.Field{spec.F("user_id", 1, spec.String), spec.F("name", 2, spec.String), spec.F("big", 3, spec.Int64).With(func(a *spec.Ann) { a.Int64Enc = 2 })}},
 			{Name: "Resp", Fields: []*spec.Field{spec.F("id", 1, spec.String), spec.FE("color", 2, ".basic.v1.Color"), spec.FM("at", 3, spec.Timestamp)}},
 		}
